@@ -388,3 +388,54 @@ func RelOf(idx int, target ecs.Entity) ecs.Relation {
 	}
 	panic("bad universe index")
 }
+
+func newFrom[T any](w *ecs.World, src ecs.Entity, viaMap bool, n int) ecs.Entity {
+	if viaMap {
+		m := ecs.NewMap[T](w)
+		if n > 0 {
+			m.NewBatch(n, m.Get(src))
+			return ecs.Entity{}
+		}
+		return m.NewEntity(m.Get(src))
+	}
+	m := ecs.NewMap1[T](w)
+	if n > 0 {
+		m.NewBatch(n, m.Get(src))
+		return ecs.Entity{}
+	}
+	return m.NewEntity(m.Get(src))
+}
+
+// NewFrom creates an entity (or n entities, if n > 0) with the single non-relation component idx, passing the pointer
+// to src's own component in the world as the initial value (Map[T] or Map1[T]).
+func NewFrom(w *ecs.World, idx int, src ecs.Entity, viaMap bool, n int) ecs.Entity {
+	switch idx {
+	case ICA:
+		return newFrom[CA](w, src, viaMap, n)
+	case ICB:
+		return newFrom[CB](w, src, viaMap, n)
+	case ICC:
+		return newFrom[CC](w, src, viaMap, n)
+	case ICD:
+		return newFrom[CD](w, src, viaMap, n)
+	case ICE:
+		return newFrom[CE](w, src, viaMap, n)
+	case ICF:
+		return newFrom[CF](w, src, viaMap, n)
+	case ICG:
+		return newFrom[CG](w, src, viaMap, n)
+	case ICBig:
+		return newFrom[CBig](w, src, viaMap, n)
+	case ICTag:
+		return newFrom[CTag](w, src, viaMap, n)
+	case ICP:
+		return newFrom[CP](w, src, viaMap, n)
+	case ICS:
+		return newFrom[CS](w, src, viaMap, n)
+	case ICStr:
+		return newFrom[CStr](w, src, viaMap, n)
+	case ICM:
+		return newFrom[CM](w, src, viaMap, n)
+	}
+	panic("NewFrom: not a plain component")
+}
